@@ -3,6 +3,8 @@
 import json, glob, os
 meta = json.load(open('/verif/tools/manifest_meta.json'))
 props = {json.loads(l)['id'] for l in open('/verif/properties.jsonl')}
+import subprocess
+hook_commits = [l.split()[0] for l in subprocess.run(['git', '-C', '/repo', 'log', '--format=%h %s'], capture_output=True, text=True).stdout.splitlines() if len(l.split()) > 1 and l.split()[1] == 'verif:']
 checks = []
 claimed = set()
 for f in sorted(glob.glob('/verif/props/C*.json')):
@@ -33,7 +35,7 @@ man = {
         "guard": "verif",
         "enable": "go build tag `verif` (packages are loaded with -tags=verif; the only guarded files are comment-only <pkg>/contracts_verif.go contract files)",
         "baseline_off_cmd": "cd /repo && GOFLAGS=-mod=mod GOPROXY=off GOSUMDB=off go test -json -vet=off -count=1 -timeout 25m ./...",
-        "source_commits": meta.get('source_commits', []),
+        "source_commits": hook_commits,
         "add_only": True,
     },
     "engines": [{"name": "vcgo", "path": "/verif/vcgo", "serves_properties": sorted(claimed),
